@@ -155,3 +155,131 @@ pub fn cases(thorough: bool) -> Vec<Case> {
     }
     out
 }
+
+// ---------------------------------------------------------------------------------------------
+// The same reassembly through connections made the way applications make them: the public Builder over
+// real loopback TCP (`insim::tcp(addr).compressed()/uncompressed().tcp_nodelay(..).connect_blocking()/
+// connect_async()`).  The kernel decides how the peer's writes are cut into reads, so the schedule is not
+// enumerated here (the scripted-transport search does that); what is enumerated is how the connection was
+// made x how the peer wrote.  The outcome must not depend on either.
+
+pub struct TcpCase {
+    pub tokio: bool,
+    pub compressed: bool,
+    pub nodelay: bool,
+    /// 0 = the whole stream in one write; n = writes of n bytes
+    pub chunk: usize,
+}
+
+impl TcpCase {
+    pub fn label(&self) -> String {
+        format!("builder-tcp#{}#{}#nodelay-{}#peer-writes-{}", if self.tokio { "connect_async" } else { "connect_blocking" }, if self.compressed { "compressed" } else { "uncompressed" }, self.nodelay,
+            if self.chunk == 0 { "everything-at-once".to_string() } else { format!("{}-bytes-at-a-time", self.chunk) })
+    }
+}
+
+pub fn tcp_cases() -> Vec<TcpCase> {
+    let mut out = vec![];
+    for tokio in [false, true] {
+        for compressed in [true, false] {
+            for nodelay in [true, false] {
+                for chunk in [0usize, 1, 3, 1021, 4096] {
+                    out.push(TcpCase { tokio, compressed, nodelay, chunk });
+                }
+            }
+        }
+    }
+    out
+}
+
+fn tcp_stream_packets(compressed: bool) -> Vec<Packet> {
+    let ka = Packet::Tiny(Tiny { reqi: RequestId(0), subt: TinyType::None });
+    let mut v = vec![Packet::Ver(Ver { reqi: RequestId(1), insimver: 9, ..Default::default() })];
+    let c = cycle(compressed);
+    v.push(c[1].clone());
+    v.push(ka.clone());
+    // more than the 6120-byte receive buffer in one go
+    for k in 0..9 { v.push(c[if k % 2 == 0 { 0 } else { 4 }].clone()); v.push(c[2].clone()); }
+    v.push(ka.clone());
+    v.push(c[5].clone());
+    v.push(ka);
+    v.push(c[3].clone());
+    v
+}
+
+/// Ok(()) or Err(description); "harness: ..." = the environment failed, not the library.
+pub fn run_tcp(case: &TcpCase) -> Result<(), String> {
+    use std::io::{Read, Write};
+    use std::time::Duration;
+    let codec = Codec::new(mode_of(case.compressed));
+    let packets = tcp_stream_packets(case.compressed);
+    let frames: Vec<Vec<u8>> = packets.iter().map(|p| codec.encode(p).map(|b| b.to_vec()).map_err(|e| format!("harness: encode {e:?}"))).collect::<Result<_, _>>()?;
+    let stream: Vec<u8> = frames.concat();
+    let keepalives = packets.iter().filter(|p| matches!(p, Packet::Tiny(t) if t.reqi.0 == 0 && t.subt == TinyType::None)).count();
+    let listener = std::net::TcpListener::bind("127.0.0.1:0").map_err(|e| format!("harness: {e}"))?;
+    let addr = listener.local_addr().unwrap();
+    let mut b = insim::tcp(addr).connect_timeout(Duration::from_secs(3)).tcp_nodelay(case.nodelay);
+    b = if case.compressed { b.compressed() } else { b.uncompressed() };
+    let want_isi = codec.encode(&Packet::Isi(b.isi())).map_err(|e| format!("harness: encode isi {e:?}"))?.to_vec();
+    let chunk = case.chunk;
+    // the peer: accept, read the ISI, write the stream, read the replies until the client goes away
+    let peer = std::thread::spawn(move || -> Result<Vec<u8>, String> {
+        let (mut s, _) = listener.accept().map_err(|e| format!("harness: accept {e}"))?;
+        s.set_read_timeout(Some(Duration::from_secs(8))).unwrap();
+        s.set_nodelay(true).unwrap();
+        let mut isi = vec![0u8; want_isi.len()];
+        s.read_exact(&mut isi).map_err(|e| format!("the peer did not receive a whole ISI: {e}"))?;
+        if isi != want_isi { return Err(format!("the peer received {} where the handshake is {}", crate::report::hex(&isi), crate::report::hex(&want_isi))); }
+        if chunk == 0 { s.write_all(&stream).map_err(|e| format!("harness: write {e}"))?; }
+        else { for c in stream.chunks(chunk) { s.write_all(c).map_err(|e| format!("harness: write {e}"))?; } }
+        s.shutdown(std::net::Shutdown::Write).map_err(|e| format!("harness: shutdown {e}"))?;
+        let mut rest = vec![];
+        let _ = s.read_to_end(&mut rest).map_err(|e| format!("the peer's read of the replies failed: {e}"))?;
+        Ok(rest)
+    });
+    let check = |k: usize, r: Result<Packet, insim::Error>| -> Result<bool, String> {
+        if k == frames.len() {
+            return match r {
+                Err(insim::Error::Disconnected) => Ok(true),
+                other => Err(format!("after the last frame the end of the stream was reported as {}", crate::e2::world::render(&other).chars().take(80).collect::<String>())),
+            };
+        }
+        match r {
+            Ok(p) => {
+                let again = codec.encode(&p).map_err(|e| format!("result {k} does not encode: {e:?}"))?;
+                if again[..] != frames[k][..] { return Err(format!("result {k} is {} where frame {k} of the stream is {}", crate::e2::world::render(&Ok(p)).chars().take(60).collect::<String>(), crate::report::hex(&frames[k][..frames[k].len().min(16)]))); }
+                Ok(false)
+            },
+            Err(e) => Err(format!("result {k} is {}", crate::e2::world::render(&Err(e)).chars().take(80).collect::<String>())),
+        }
+    };
+    let client: Result<(), String> = if case.tokio {
+        let rt = tokio::runtime::Builder::new_current_thread().enable_io().enable_time().build().map_err(|e| format!("harness: {e}"))?;
+        rt.block_on(async {
+            let mut conn = tokio::time::timeout(Duration::from_secs(3), b.connect_async()).await.map_err(|_| "harness: connect timed out".to_string())?.map_err(|e| format!("connect failed: {e}"))?;
+            let mut k = 0usize;
+            loop {
+                let r = tokio::time::timeout(Duration::from_secs(5), conn.read()).await.map_err(|_| format!("read #{k} did not return within 5 s"))?;
+                if check(k, r)? { return Ok(()); }
+                k += 1;
+            }
+        })
+    } else {
+        (|| {
+            let mut conn = b.connect_blocking().map_err(|e| format!("connect failed: {e}"))?;
+            let mut k = 0usize;
+            loop {
+                if check(k, conn.read())? { return Ok(()); }
+                k += 1;
+            }
+        })()
+    };
+    client?;
+    let replies = peer.join().map_err(|_| "harness: peer thread panicked".to_string())??;
+    let pong: [u8; 4] = [if case.compressed { 1 } else { 4 }, 3, 0, 0];
+    let want: Vec<u8> = (0..keepalives).flat_map(|_| pong).collect();
+    if replies != want {
+        return Err(format!("the peer received {} after the ISI where {keepalives} keep-alive replies ({}) are due", crate::report::hex(&replies[..replies.len().min(40)]), crate::report::hex(&want)));
+    }
+    Ok(())
+}
